@@ -85,19 +85,48 @@ env_proof! {
     }
 }
 
+// save_user_data journals the WHOLE state as a State record: the Option
+// pattern of the encoded state is fixed per harness (all Some / all None, the
+// new user datum Some / None), values symbolic; padded-payload instantiation.
+fn shaped_store(some: bool) -> (RaftLog<RTypes>, Model) {
+    let cfg = mk_config(None, None, None, None);
+    let mut rl: RaftLog<RTypes> = open_empty(cfg);
+    let mut m = Model::any_reachable_shaped(some);
+    kani::assume(m.last.is_some() == some);
+    if some {
+        m.last = Some(m.last.unwrap_or((0, 0)));
+    } else {
+        m.last = None;
+    }
+    inject(&mut rl, &m);
+    (rl, m)
+}
+
+fn userdata(some: bool, new_some: bool) {
+    let (mut rl, mut m) = shaped_store(some);
+    let u: Option<u8> = if new_some { Some(kani::any()) } else { None };
+    let ok = is_ok(rl.save_user_data(u));
+    assert!(ok, "save_user_data is always accepted");
+    m.user_data = u;
+    assert_matches(&rl, &m);
+    kani::cover!(true, "user data saved");
+    core::mem::forget(rl);
+}
+
 // @harness name=c01_userdata prop=C01 tier=quick timeout=1200
 env_proof! {
     unwind = 6, rot = ghost, crc = off,
-    fn c01_userdata() {
-        let (mut rl, mut m) = mk();
-        let u: Option<u8> = kani::any();
-        let ok = is_ok(rl.save_user_data(u));
-        assert!(ok, "save_user_data is always accepted");
-        m.user_data = u;
-        assert_matches(&rl, &m);
-        kani::cover!(u.is_none(), "user data cleared");
-        core::mem::forget(rl);
-    }
+    fn c01_userdata() { userdata(true, true); }
+}
+// @harness name=c01_userdata_clear prop=C01 tier=thorough timeout=1200
+env_proof! {
+    unwind = 6, rot = ghost, crc = off,
+    fn c01_userdata_clear() { userdata(true, false); }
+}
+// @harness name=c01_userdata_first prop=C01 tier=thorough timeout=1200
+env_proof! {
+    unwind = 6, rot = ghost, crc = off,
+    fn c01_userdata_first() { userdata(false, true); }
 }
 
 // @harness name=c01_truncate prop=C01 tier=quick timeout=1500
@@ -175,17 +204,7 @@ env_proof! {
 // pattern is fixed per harness (all Some / all None) and `last` follows the
 // entries; padded-payload instantiation (see ktypes::PN).
 fn append_rotating(some: bool) {
-    let cfg = mk_config(None, None, None, None);
-    let mut rl: RaftLog<RTypes> = open_empty(cfg);
-    let mut m = Model::any_reachable_shaped(some);
-    // `last` is Some in the all-Some pattern, None in the all-None pattern
-    kani::assume(m.last.is_some() == some);
-    if some {
-        m.last = Some(m.last.unwrap_or((0, 0)));
-    } else {
-        m.last = None;
-    }
-    inject(&mut rl, &m);
+    let (mut rl, mut m) = shaped_store(some);
     let id: Id = kani::any();
     let p: P = kani::any();
     kani::assume(id.1 < 250);
